@@ -77,3 +77,18 @@ Example C01_ex_runs :
   | Err _ => ([], [], 0)
   end = ([6; 5; 4; 3; 2; 1], [3; 2; 1], 6).
 Proof. vm_compute. reflexivity. Qed.
+
+(* Under a row-count target (generate(..., target_number=(N, T))): a target run that returns is a
+   repetition run of some number of whole iterations (props/C07.v, C07_interp_target_fresh), so the
+   ids are dense for it too, whatever table the target names. *)
+From SFV Require Import StopInterp.
+From SFV Require Stopping.
+From SFV.P Require Import StopInterpP.
+Theorem C01_ids_dense_target :
+  forall (r : recipe) T N fuel s j,
+    Stopping.proper_table T -> hidden T = false ->
+    run_target r (Some (Stopping.mkCrit T N)) fuel None = Ok (s, j) ->
+    forall U, hidden U = false ->
+      Permutation (written U (out s)) (Zseq 1 (Z.to_nat (last_id s U))).
+Proof. exact ids_dense_target. Qed.
+Print Assumptions C01_ids_dense_target.
